@@ -202,6 +202,20 @@ func IsSubPath(path string, root string) bool {
 	return len(path) == len(root) || path[len(root)] == '/' || path[len(root)] == '['
 }
 
+// GetListPath returns the path of the list that the last element of the specified path is an entry of, i.e. the path
+// without the keys of its last element; empty string if the last element has no keys
+func GetListPath(path string) string {
+	i := strings.LastIndex(path, "/")
+	if i < 0 {
+		return ""
+	}
+	j := strings.Index(path[i:], "[")
+	if j < 0 {
+		return ""
+	}
+	return path[:i+j]
+}
+
 // GetParentPath returns the immediate parent path of the specified path; empty string if "/" is given
 func GetParentPath(path string) string {
 	i := strings.LastIndex(path, "/")
